@@ -140,8 +140,9 @@ func (b *Blob) getBytes() ([]byte, error) {
 	if err != nil {
 		return nil, err
 	}
-	b.bytes.Store(blob.NewBytes(buf))
-	return buf, nil
+	cached := blob.NewBytes(buf)
+	b.bytes.Store(cached)
+	return cached.Bytes(), nil // a copy: the caller must not be handed the cache's own backing array
 }
 
 // JSValue implements jswrapper.Wrapper
@@ -157,10 +158,6 @@ func (b *Blob) Len() int {
 
 // View implements blob.ViewBlob
 func (b *Blob) View(start, end int64) (blob.Blob, error) {
-	if start == 0 && end == atomic.LoadInt64(&b.length) {
-		return b, nil
-	}
-
 	var newBlob *Blob
 	value := safejs.Safe(b.JSValue())
 	subarray, err := value.Call("subarray", start, end)
